@@ -411,6 +411,21 @@ class Gen:
             return self.fn(r.choice(["min", "max"]), arg("string"), **kw)
         raise ValueError(cls)
 
+    def with_col(self, tv, cls, depth, **kw):
+        """element-wise expression that mentions at least one column (window function arguments)"""
+        from .triggers import _has_col
+
+        for _ in range(6):
+            e = self.ewise(tv, cls, depth, **kw)
+            if _has_col(e):
+                return e
+        cands = self.cols_of(tv, cls)
+        for c in cands:
+            e = self.ref(tv, c)
+            if e is not None:
+                return e
+        return None
+
     def window(self, tv: TV, cls: str, *, part_explicit=None):
         """true window function with a total arrange= order"""
         r = self.rng
@@ -424,14 +439,18 @@ class Gen:
             k = r.choice(["row_number", "rank", "dense_rank", "shift", "cum_sum"])
             if k in ("row_number", "rank", "dense_rank"):
                 return self.fn(k, **kw)
+            a = self.with_col(tv, "int", 1, mul_ok=False)
+            if a is None:
+                return self.fn("row_number", **kw)
             if k == "shift":
-                return self.fn("shift", self.ewise(tv, "int", 1), {"lit": r.choice([1, -1, 2, 0])},
+                return self.fn("shift", a, {"lit": r.choice([1, -1, 2, 0])},
                                {"lit": r.choice([0, -9]) if r.random() < 0.4 else None}, **kw)
-            return self.fn("cum_sum", self.ewise(tv, "int", 1, mul_ok=False), **kw)
-        if cls == "string":
-            return self.fn("shift", self.ewise(tv, "string", 1), {"lit": r.choice([1, -1])}, {"lit": None}, **kw)
-        if cls == "bool":
-            return self.fn("shift", self.ewise(tv, "bool", 1), {"lit": r.choice([1, -1])}, {"lit": None}, **kw)
+            return self.fn("cum_sum", a, **kw)
+        if cls in ("string", "bool"):
+            a = self.with_col(tv, cls, 1)
+            if a is None:
+                return None
+            return self.fn("shift", a, {"lit": r.choice([1, -1])}, {"lit": None}, **kw)
         return None
 
     def over_agg(self, tv, cls, depth, **k):
